@@ -9,6 +9,7 @@ import PV.Model.History
 import PV.Model.Ops
 import PV.Model.Corr
 import PV.Model.Format
+import PV.Spec.WF
 
 open Lean PV PV.Wire
 
@@ -187,6 +188,20 @@ def opFmt (j : Json) : Except String Json := do
   pure (obj [("str", .str (Fmt.withFlag flag x.render)), ("val", enc rb.1), ("err", enc rb.2),
              ("rd", enc (Fmt.roundDouble d))])
 
+/-- op "wf": {"obs": Obs} -> {"wf": bool, "diag": text} -/
+def opWf (j : Json) : Except String Json := do
+  let o : Obs Float ← get j "obs"
+  pure (obj [("wf", .bool (Spec.wfC04 o)), ("diag", .str (Spec.wfDiag o))])
+
+/-- op "mkobs": {"samples": [[x]], "names": [s], "idl": null | [Idl]} -> {"obs": Obs} | {"exc": e} -/
+def opMkObs (j : Json) : Except String Json := do
+  let samples : List (List Float) ← get j "samples"
+  let names : List String ← get j "names"
+  let idl : Option (List Idl) ← get j "idl"
+  match mkObs samples names idl with
+  | .ok o => pure (obj [("obs", enc o), ("wf", .bool (Spec.wfC04 o))])
+  | .error e => pure (obj [("exc", .str (reprStr e))])
+
 def dispatch (op : String) (j : Json) : Except String Json :=
   match op with
   | "gamma" => opGamma false j
@@ -195,6 +210,8 @@ def dispatch (op : String) (j : Json) : Except String Json :=
   | "expr_tree" => opExprTree j
   | "corr" => opCorr j
   | "fmt" => opFmt j
+  | "wf" => opWf j
+  | "mkobs" => opMkObs j
   | "ping" => pure (.str "pong")
   | _ => .error s!"unknown op {op}"
 
